@@ -247,8 +247,9 @@ def rule_network_membership(ctx: Ctx, rep: Report) -> None:
             if not (isinstance(c, ast.Compare) and len(c.ops) == 1 and isinstance(c.ops[0], (ast.Eq, ast.NotEq))):
                 continue
             sides = [c.left, c.comparators[0]]
-            rev = [x for x in sides if (isinstance(x, ast.Call) and call_name(x) in REVERSE_NETWORK_MAPS) or (isinstance(x, ast.Name) and x.id in bound)]
-            req = [x for x in sides if isinstance(x, ast.Name) and x.id in params]
+            # a side *holds* the reverse-mapped network / the requested one: bare, or wrapped (network_from_name(x) == ...)
+            rev = [x for x in sides if any((isinstance(y, ast.Call) and call_name(y) in REVERSE_NETWORK_MAPS) or (isinstance(y, ast.Name) and y.id in bound) for y in ast.walk(x))]
+            req = [x for x in sides if any(isinstance(y, ast.Name) and y.id in params for y in ast.walk(x)) and x not in rev]
             if rev and req:
                 rep.ob(rule, f"{fi.qualname}:{norm(c)}", False, fi.where(c),
                        f"`{norm(c)}` maps the version back to one network and compares names: the networks that share the version are refused")
@@ -259,7 +260,12 @@ def rule_network_membership(ctx: Ctx, rep: Report) -> None:
     cs = refusal_constraints(ctx, px)
     okm = any(c.op == "not in" and "version" in str(c.subject) for c in cs)
     rep.ob(rule, "_pub_keyinfo_from_xpub:membership", okm, px.where(), "the xpub's version must be one of the requested network's versions")
-    rep.floor(rule, 3)
+    pv = ctx.func("btclib.to_prv_key._prv_keyinfo_from_xprv")
+    cs2 = refusal_constraints(ctx, pv)
+    okm2 = any(c.op == "not in" and "version" in str(c.subject) for c in cs2)
+    rep.ob(rule, "_prv_keyinfo_from_xprv:membership", okm2, pv.where(), "the xprv's version must be one of the requested network's versions" if okm2 else
+           f"no membership test of the xprv's version in the requested network's versions (refusals: {[c.show() for c in cs2][:3]})")
+    rep.floor(rule, 4)
 
 
 def rule_one_network(ctx: Ctx, rep: Report) -> None:
